@@ -138,7 +138,8 @@ func (k *DNSKEY) KeyTag() uint16 {
 	keywire.Protocol = k.Protocol
 	keywire.Algorithm = k.Algorithm
 	keywire.PublicKey = k.PublicKey
-	wire := make([]byte, DefaultMsgSize)
+	// flags, protocol, algorithm and the key: no base64 text decodes to more octets than it has characters
+	wire := make([]byte, 4+len(k.PublicKey))
 	n, err := packKeyWire(keywire, wire)
 	if err != nil {
 		return 0
@@ -176,7 +177,8 @@ func (k *DNSKEY) ToDS(h uint8) *DS {
 	keywire.Protocol = k.Protocol
 	keywire.Algorithm = k.Algorithm
 	keywire.PublicKey = k.PublicKey
-	wire := make([]byte, DefaultMsgSize)
+	// flags, protocol, algorithm and the key: no base64 text decodes to more octets than it has characters
+	wire := make([]byte, 4+len(k.PublicKey))
 	n, err := packKeyWire(keywire, wire)
 	if err != nil {
 		return nil
